@@ -214,6 +214,7 @@ AllEdits  == {"size", "mesh", "addchild", "delact"}
 TwoEdits  == {"addchild", "delact"}
 AllOps    == {"newspec", "copyspec", "edit", "thread", "compile", "copymodel", "makedata", "setstate", "recompile", "cache"}
 CacheOps  == {"thread", "compile", "copymodel", "recompile", "cache"}
+NoCacheOps == {"newspec", "copyspec", "edit", "thread", "compile", "copymodel", "makedata", "setstate", "recompile"}
 CacheOpsQ == {"compile", "recompile", "cache"}
 RecOps    == {"edit", "setstate", "recompile"}
 NoThr     == {FALSE}
